@@ -1,2 +1,4 @@
 pub mod amf0;
 pub mod chunk;
+pub mod handshake;
+pub mod sha256;
